@@ -47,6 +47,73 @@ func jsonCfgs() []jsonCfg {
 	}
 }
 
+// Types through which the same document can be handed over as a Go value: the standard
+// encoding calls their marshalers, which emit members in their own (unsorted) order.
+type pmS string // MarshalJSON on the pointer receiver (called for addressable values: slice elements, fields behind a pointer)
+
+func (p *pmS) MarshalJSON() ([]byte, error) { return []byte(*p), nil }
+
+type vmS string // MarshalJSON on the value receiver
+
+func (v vmS) MarshalJSON() ([]byte, error) { return []byte(v), nil }
+
+type wrapS struct {
+	Inner *pmS `json:"inner"`
+	N     int  `json:"n"`
+}
+
+// typedView re-types the decoded document v (maps / []any) without changing the JSON
+// document it encodes to, apart from member order inside marshaler-emitted parts.
+func typedView(r *rand.Rand, d *vkit.JNode, v any) (any, string) {
+	raw := func(n *vkit.JNode) string { return n.Render(r, false) }
+	switch x := r.IntN(8); {
+	case x == 0:
+		return &v, "pointer-to-interface"
+	case x == 1 && d.Kind == "arr":
+		out := make([]pmS, len(d.Vals))
+		for i, e := range d.Vals {
+			out[i] = pmS(raw(e))
+		}
+		return out, "slice-of-scalar-kind-with-pointer-receiver-marshaler"
+	case x == 2 && d.Kind == "arr":
+		out := make([]vmS, len(d.Vals))
+		for i, e := range d.Vals {
+			out[i] = vmS(raw(e))
+		}
+		return out, "slice-of-scalar-kind-with-value-receiver-marshaler"
+	case x == 3 && d.Kind == "arr":
+		out := make([]json.RawMessage, len(d.Vals))
+		for i, e := range d.Vals {
+			out[i] = json.RawMessage(raw(e))
+		}
+		return out, "slice-of-raw-messages"
+	case x == 4 && d.Kind == "obj":
+		out := map[string]*pmS{}
+		for i, k := range d.Keys {
+			p := pmS(raw(d.Vals[i]))
+			out[k] = &p
+		}
+		if len(out) == len(d.Keys) {
+			return out, "map-of-pointers-to-marshalers"
+		}
+	case x == 5 && d.Kind == "arr" && len(d.Vals) == 3:
+		var out [3]pmS
+		for i, e := range d.Vals {
+			out[i] = pmS(raw(e))
+		}
+		return &out, "pointer-to-array-of-marshalers"
+	case x == 6 && d.Kind == "obj":
+		out := map[string]json.RawMessage{}
+		for i, k := range d.Keys {
+			out[k] = json.RawMessage(raw(d.Vals[i]))
+		}
+		if len(out) == len(d.Keys) {
+			return out, "map-of-raw-messages"
+		}
+	}
+	return v, "maps-and-slices"
+}
+
 // goFromTree converts the tree into the Go value encoding/json would decode it to.
 func goFromTree(n *vkit.JNode) (any, bool) {
 	switch n.Kind {
@@ -149,7 +216,7 @@ func formArg(form, doc string, gv any) any {
 }
 
 func checkC14(c *vkit.Ctx) {
-	c.P.Rule = "case = (JSON document tree depth<=4 with hostile keys/strings/numbers, entry point MatchJSON|MatchStandaloneJSON, JSON format option set, two presentations: random insignificant whitespace, member shuffle when SortKeys is on, input form string|[]byte|Go value where the document is json.Marshal(value)); recorded through presentation 1, replayed through presentation 2 in a fresh simulated process (must pass, no write), recorded again through presentation 2 in another slot (texts must be equal), stored text decoded with encoding/json and compared with the input tree (ordered when SortKeys is off); plus invalid documents (24 malformation classes, the empty one also as a nil []byte; alone or together with matchers that have nothing to object to) in four modes over missing/existing slots; non-trivial = document with nesting>=2 or a hostile key/number/string class, or an invalid document; distinct by hash(document, presentations, options, api)"
+	c.P.Rule = "case = (JSON document tree depth<=4 with hostile keys/strings/numbers, entry point MatchJSON|MatchStandaloneJSON, JSON format option set, two presentations: random insignificant whitespace, member shuffle when SortKeys is on, input form string|[]byte|Go value where the document is json.Marshal(value) and the value is maps/slices or a typed view of them: slices, arrays and maps of types with pointer- or value-receiver MarshalJSON, raw messages, pointers); recorded through presentation 1, replayed through presentation 2 in a fresh simulated process (must pass, no write), recorded again through presentation 2 in another slot (texts must be equal), stored text decoded with encoding/json and compared with the input tree (ordered when SortKeys is off); plus invalid documents (24 malformation classes, the empty one also as a nil []byte; alone or together with matchers that have nothing to object to) in four modes over missing/existing slots; non-trivial = document with nesting>=2 or a hostile key/number/string class, or an invalid document; distinct by hash(document, presentations, options, api)"
 	c.P.Assumptions = []string{"encoding/json is the oracle for JSON validity and for decoding", "tree comparison treats numbers by exact rational value"}
 	cfgs := jsonCfgs()
 	if os.Getenv("VERIF_RACE_BUILD") == "1" {
@@ -192,6 +259,11 @@ func c14Valid(c *vkit.Ctx, r *rand.Rand, i int, cfgs []jsonCfg) {
 		// the document is then the standard encoding of the value, and the string/bytes forms carry
 		// exactly that text (escape style is part of the text, it is not re-rendered)
 		v, ok := goFromTree(d)
+		if ok {
+			var kind string
+			v, kind = typedView(r, d, v)
+			cl["go-value:"+kind] = true
+		}
 		b, err := json.Marshal(v)
 		if ok && err == nil {
 			gv = v
